@@ -376,10 +376,30 @@ package kcp
 //@   loop 1 invariant kcp.wfR() && kcp.wfW() && kcp.wfH() && kcp.rcv_queue.sameOrFresh() && kcp.rcv_buf.sameOrFresh()
 //@   loop 1 invariant (old(kcp.rcvQ()) ==> kcp.rcvQ()) && itimediff(kcp.rcv_nxt, old(kcp.rcv_nxt)) >= 0 && kcp.rcv_queue.rlen() - old(kcp.rcv_queue.rlen()) == itimediff(kcp.rcv_nxt, old(kcp.rcv_nxt))
 //
+// bytes of a chunk of n bytes that go into the last queued segment in stream mode
+//@ spec (kcp *KCP) sendExtend(n int) int = len(kcp.snd_queue.at(kcp.snd_queue.rlen() - 1).data) < kcp.mss ? min(n, kcp.mss - len(kcp.snd_queue.at(kcp.snd_queue.rlen() - 1).data)) : 0
+//@ pred (kcp *KCP) noAppend() = kcp.stream == 0 || old(kcp.snd_queue.rlen()) == 0
 //@ func KCP.Send counted
 //@   ensures @C01 [a-chunk-of-at-most-one-segment-is-always-queued] 0 < old(len(buffer)) && old(len(buffer)) <= kcp.mss ==> result == 0
+//@   ensures @C01 [message-mode-chunk-becomes-one-unfragmented-segment-of-the-same-length] kcp.stream == 0 && 0 < old(len(buffer)) && old(len(buffer)) <= kcp.mss
+//@        ==> kcp.snd_queue.rlen() == old(kcp.snd_queue.rlen()) + 1 && kcp.snd_queue.at(kcp.snd_queue.rlen() - 1).frg == 0
+//@         && len(kcp.snd_queue.at(kcp.snd_queue.rlen() - 1).data) == old(len(buffer))
 //@   ensures @C18 [unsent-segments-carry-no-timer] old(kcp.wfU()) ==> kcp.wfU()
 //@   loop 2 invariant @C18 old(kcp.wfU()) ==> kcp.wfU()
+//@   ensures @C01 [stream-mode-chunk-fills-the-last-segment-then-one-new-segment-no-byte-lost] kcp.stream != 0 && 0 < old(len(buffer)) && old(len(buffer)) <= kcp.mss && old(kcp.snd_queue.rlen()) > 0
+//@        ==> (old(len(buffer)) == old(kcp.sendExtend(len(buffer))) ==> kcp.snd_queue.rlen() == old(kcp.snd_queue.rlen())
+//@              && len(kcp.snd_queue.at(kcp.snd_queue.rlen() - 1).data) == old(len(kcp.snd_queue.at(kcp.snd_queue.rlen() - 1).data)) + old(len(buffer)))
+//@         && (old(len(buffer)) > old(kcp.sendExtend(len(buffer))) ==> kcp.snd_queue.rlen() == old(kcp.snd_queue.rlen()) + 1
+//@              && len(kcp.snd_queue.at(kcp.snd_queue.rlen() - 1).data) == old(len(buffer)) - old(kcp.sendExtend(len(buffer))) && kcp.snd_queue.at(kcp.snd_queue.rlen() - 1).frg == 0)
+//@   ensures @C01 [stream-mode-chunk-into-an-empty-queue-becomes-one-segment] kcp.stream != 0 && 0 < old(len(buffer)) && old(len(buffer)) <= kcp.mss && old(kcp.snd_queue.rlen()) == 0
+//@        ==> kcp.snd_queue.rlen() == 1 && len(kcp.snd_queue.at(0).data) == old(len(buffer)) && kcp.snd_queue.at(0).frg == 0
+//@   loop 2 invariant @C01 0 < old(len(buffer)) && old(len(buffer)) <= kcp.mss ==> count == 1
+//@   loop 2 invariant @C01 kcp.noAppend() && count == 1 && i == 0 ==> kcp.snd_queue.rlen() == old(kcp.snd_queue.rlen()) && buffer == old(buffer)
+//@   loop 2 invariant @C01 kcp.noAppend() && count == 1 && i >= 1 ==> i == 1 && kcp.snd_queue.rlen() == old(kcp.snd_queue.rlen()) + 1
+//@   loop 2 invariant @C01 kcp.noAppend() && count == 1 && i >= 1 ==> kcp.snd_queue.at(old(kcp.snd_queue.rlen())).frg == 0 && len(kcp.snd_queue.at(old(kcp.snd_queue.rlen())).data) == old(len(buffer))
+//@   loop 2 invariant @C01 !kcp.noAppend() && count == 1 && i == 0 ==> kcp.snd_queue.rlen() == old(kcp.snd_queue.rlen()) && len(buffer) == old(len(buffer)) - old(kcp.sendExtend(len(buffer)))
+//@   loop 2 invariant @C01 !kcp.noAppend() && count == 1 && i >= 1 ==> i == 1 && kcp.snd_queue.rlen() == old(kcp.snd_queue.rlen()) + 1
+//@   loop 2 invariant @C01 !kcp.noAppend() && count == 1 && i >= 1 ==> kcp.snd_queue.at(old(kcp.snd_queue.rlen())).frg == 0 && len(kcp.snd_queue.at(old(kcp.snd_queue.rlen())).data) == old(len(buffer)) - old(kcp.sendExtend(len(buffer)))
 //@   requires kcp.wfR() && kcp.wfM() && kcp.wfSq()
 //@   modifies all(kcp.snd_queue), kcp.snd_queue.elements[..], kcp.snd_queue.at(kcp.snd_queue.rlen() - 1).data[..]
 //@   ensures kcp.wfR() && kcp.wfSq()
